@@ -990,7 +990,31 @@ def canon_world(w):
                         ctl.current_failed_transaction_count,
                     )
                 )
-    return (tuple(out), tuple(pk), tuple(mw), tuple(cl))
+    # the driver's own index-addressed memory (orders / trades an action letter can name), including orders
+    # that were refused and therefore never reached a blotter
+    where = {}
+    twhere = {}
+    for mi, (spec, _) in enumerate(w.markets_in):
+        m = fw.markets.markets.get(spec.market_id)
+        if m is None:
+            continue
+        for i, o in enumerate(m.blotter):
+            where[id(o)] = (mi, i)
+            twhere.setdefault(id(o.trade), (mi, len([1 for k in twhere.values() if k[0] == mi])))
+    drv = []
+    for st in fw.strategies:
+        known = getattr(st, "known", None)
+        if known is None:
+            continue
+        ko = tuple(where[id(o)] if id(o) in where else ("off", canon_order(o, twhere, now)) for o in known)
+        kt = tuple(
+            twhere[id(t)]
+            if id(t) in twhere
+            else ("off", t.status.name, t.pending_orders, len(t.orders), tuple(known.index(o) if o in known else -1 for o in t.orders))
+            for t in getattr(st, "trades_known", [])
+        )
+        drv.append((ko, kt))
+    return (tuple(out), tuple(pk), tuple(mw), tuple(cl), tuple(drv))
 
 
 # --------------------------------------------------------------------------------------
